@@ -58,7 +58,11 @@ func main() {
 			} else {
 				var fs []string
 				for fam := range ms.Fams {
-					fs = append(fs, fam)
+					if ms.NonFresh[fam] {
+						fs = append(fs, fam+"   [pre-existing objects too]")
+					} else {
+						fs = append(fs, fam)
+					}
 				}
 				sort.Strings(fs)
 				fmt.Println("  ", strings.Join(fs, "\n   "))
